@@ -31,7 +31,7 @@ NoAcct == 0
 Events == {"e1", "e2"}
 Kinds == {"transfer", "rollup_data", "bridge_lock", "bridge_unlock", "bridge_transfer", "bridge_sudo_change",
           "init_bridge", "sudo_change", "fee_change", "fee_asset_change", "ibc_sudo_change", "ibc_relayer_change",
-          "validator_update", "ics20_withdrawal", "ibc_relay", "pairs_change"}
+          "validator_update", "ics20_withdrawal", "ibc_relay", "pairs_change", "markets_change"}
 FeeBearing == {"transfer", "rollup_data", "bridge_lock", "bridge_unlock", "bridge_transfer", "bridge_sudo_change",
                "init_bridge", "ics20_withdrawal"}
 
@@ -74,9 +74,11 @@ IbcRelayBad == Act("ibc_relay")
 \* CurrencyPairsChange::Addition of one oracle currency pair the chain does not have yet (the oracle's own state is
 \* Oracle.tla / Abci.tla's business; here only who may do it, and that it happens once)
 PairsChange == Act("pairs_change")
+\* MarketsChange::Creation of one market the market map does not have yet
+MarketsChange == Act("markets_change")
 
 Group(a) == CASE a.k \in {"sudo_change", "ibc_sudo_change"} -> 1
-              [] a.k \in {"ibc_relayer_change", "fee_change", "fee_asset_change", "pairs_change"} -> 2
+              [] a.k \in {"ibc_relayer_change", "fee_change", "fee_asset_change", "pairs_change", "markets_change"} -> 2
               [] a.k \in {"init_bridge", "bridge_sudo_change"} -> 3
               [] OTHER -> 4
 Tx(signer, nonce, acts) == [signer |-> signer, nonce |-> nonce, acts |-> acts]
@@ -145,6 +147,7 @@ MutableOK(s, signer, a) ==
     [] a.k = "init_bridge" -> ~s.bridge[signer].is
     [] a.k \in {"sudo_change", "fee_change", "ibc_sudo_change", "validator_update"} -> s.sudo = signer
     [] a.k = "pairs_change" -> s.sudo = signer /\ ~s.pairAdded
+    [] a.k = "markets_change" -> s.sudo = signer /\ ~s.marketAdded
     [] a.k = "fee_asset_change" ->
          /\ s.sudo = signer
          /\ IF a.flag THEN a.asset \notin s.feeAssets
@@ -185,6 +188,7 @@ Effect(s, signer, a) ==
          Ok([s EXCEPT !.feeAssets = IF a.flag THEN @ \cup {a.asset} ELSE @ \ {a.asset}])
     [] a.k = "ibc_sudo_change" -> Ok([s EXCEPT !.ibcSudo = a.n1])
     [] a.k = "pairs_change" -> Ok([s EXCEPT !.pairAdded = TRUE])
+    [] a.k = "markets_change" -> Ok([s EXCEPT !.marketAdded = TRUE])
     [] a.k = "ibc_relayer_change" ->
          Ok([s EXCEPT !.relayers = IF a.flag THEN @ \cup {a.n1} ELSE @ \ {a.n1}])
     [] a.k = "validator_update" -> Ok([s EXCEPT !.valUpd = @ \cup {<<a.n1, a.amt>>}])
@@ -236,7 +240,7 @@ BaseState ==
    deps |-> <<>>,
    valUpd |-> {},
    escrow |-> [x \in Assets |-> 0],
-   pairAdded |-> FALSE,
+   pairAdded |-> FALSE, marketAdded |-> FALSE,
    charged |-> <<>>]
 
 NoTx == Tx(NoAcct, 0, <<>>)
@@ -279,7 +283,7 @@ AuthActs ==
    SudoChange(2), SudoChange(3), FeeChange("transfer", 0, 0), FeeAssetChange(FALSE, "alt"), FeeAssetChange(TRUE, "big"),
    IbcSudoChange(3), IbcRelayerChange(TRUE, 1), IbcRelayerChange(FALSE, 4), ValidatorUpdate(1, 5),
    Ics20Withdrawal("nria", 2, NoAcct, "e1", 1, "nria"), Ics20Withdrawal("nria", 2, 3, "e1", 1, "nria"),
-   Ics20Withdrawal("nria", 2, 4, "e2", 3, "nria"), IbcRelayBad, PairsChange}
+   Ics20Withdrawal("nria", 2, 4, "e2", 3, "nria"), IbcRelayBad, PairsChange, MarketsChange}
 AuthTxs == {Tx(sg, n, <<a>>) : sg \in Acct, n \in {0, 1}, a \in AuthActs}
 
 \* "atomic": C03 — bundles failing at every index; nonces below / at / above the account nonce
@@ -401,7 +405,7 @@ DebitAuthorised == [][IsTx => \A a \in Acct, x \in Assets :
       st'.bal[a][x] < st.bal[a][x] => (a = TheTx.signer \/ (st.bridge[a].is /\ st.bridge[a].wd = TheTx.signer))]_vars
 PrivilegedChange == [][IsTx =>
       /\ (st'.sudo # st.sudo \/ st'.fee # st.fee \/ st'.feeAssets # st.feeAssets \/ st'.ibcSudo # st.ibcSudo
-          \/ st'.valUpd # st.valUpd \/ st'.pairAdded # st.pairAdded) => TheTx.signer = st.sudo
+          \/ st'.valUpd # st.valUpd \/ st'.pairAdded # st.pairAdded \/ st'.marketAdded # st.marketAdded) => TheTx.signer = st.sudo
       /\ st'.relayers # st.relayers => TheTx.signer = st.ibcSudo
       /\ \A b \in Acct : st'.bridge[b] # st.bridge[b] =>
             IF st.bridge[b].is THEN TheTx.signer = st.bridge[b].sudo ELSE TheTx.signer = b]_vars
@@ -448,7 +452,7 @@ TypeOK == /\ \A a \in Acct, x \in Assets : st.bal[a][x] >= 0 /\ st.bal[a][x] <= 
 ProjBridge(b) == IF b.is THEN b ELSE [is |-> FALSE]
 Proj(s) == [bal |-> s.bal, nonce |-> s.nonce, sudo |-> s.sudo, ibcSudo |-> s.ibcSudo, relayers |-> s.relayers,
             feeAssets |-> s.feeAssets, fee |-> s.fee, bridge |-> [a \in Acct |-> ProjBridge(s.bridge[a])],
-            wdSeen |-> s.wdSeen, bfees |-> s.bfees, deps |-> s.deps, valUpd |-> s.valUpd, escrow |-> s.escrow, pairAdded |-> s.pairAdded]
+            wdSeen |-> s.wdSeen, bfees |-> s.bfees, deps |-> s.deps, valUpd |-> s.valUpd, escrow |-> s.escrow, pairAdded |-> s.pairAdded, marketAdded |-> s.marketAdded]
 LogStep == PrintT(<<"T", ToJson([s |-> Proj(st), sc |-> IF last'.stale THEN Proj(prev) ELSE "same",
                                  a |-> last', t |-> Proj(st'), charged |-> st'.charged])>>)
 =============================================================================
